@@ -58,11 +58,13 @@ struct CallCtx {
 };
 thread_local CallCtx* tl_call = nullptr;
 thread_local int tl_in_wait = 0;
+thread_local int tl_prev_flag = 0; // this thread saw the set under test cancelled at its previous harness step
 
 struct World {
   mc::Shared<int> started[kMax];
   mc::Shared<int> finished[kMax]; // 1 returned, 2 threw
   mc::Shared<int> caller_got[kMax]; // the exception of task i propagated out of the schedule call
+  mc::Shared<int> submitted_canceled[kMax]; // task i was submitted by a call that began with the set cancelled
   mc::Shared<int> next{0};
   mc::Shared<int> ngates{0};
   mc::Shared<int> npoolgates{0};
@@ -77,38 +79,71 @@ struct World {
   bool strict = false;
   bool barrier[kMax] = {}; // T0 only: task belongs to the set under test (C02)
 
+  // short trace of harness-visible events, dumped with cancel-oracle failures (diagnostics only)
+  mc::Shared<int> ntrace{0};
+  mc::Shared<int> trace[64];
+  void ev(char what, int id) {
+    const std::atomic<bool>* cf = cflag.get();
+    int flag = (cf && raw(*cf)) ? 1 : 0;
+    int k = ntrace.add(1);
+    if (k < 64) trace[k].set((mc_self_id() << 24) | (flag << 16) | ((what & 0xff) << 8) | (id & 0xff));
+  }
+  std::string dump() {
+    std::string out;
+    char buf[32];
+    int n = std::min(ntrace.get(), 64);
+    for (int i = 0; i < n; i++) {
+      int v = trace[i].get();
+      snprintf(buf, sizeof buf, " T%d:%c%d%s", v >> 24, (char)((v >> 8) & 0xff), v & 0xff, ((v >> 16) & 1) ? "*" : "");
+      out += buf;
+    }
+    return out;
+  }
+
   int fresh() {
     int id = next.add(1);
     MC_CHECK(id < kGateBase, "harness: too many tasks");
+    if (tl_call && tl_call->pre_canceled) submitted_canceled[id].set(1);
     return id;
   }
   int fresh_gate() { return kGateBase + ngates.add(1); }
   int fresh_pool_gate() { return kPoolGateBase + npoolgates.add(1); }
 
-  // ---- the cancellation oracle, evaluated at the first instruction of a body
+  // ---- the cancellation oracle, evaluated at the first instruction of a body.
+  // Any implementation has a window between its own "cancelled?" test and the first instruction of the body (the
+  // engine opens it too: an inferred yield is taken *after* the load that completes a spin pattern, e.g. the
+  // second packaged task in a row on one worker). A cancel() landing in that window cannot be ordered before the
+  // decision to run by anybody, so the oracle reports exactly the bodies for which the cancellation is ordered
+  // before that decision by program order or by the submission itself:
+  //   (1) the running thread had already seen the set cancelled at its previous step (end of its previous body,
+  //       entry of the schedule call it is in, return of its own cancel(), its own thrown exception), or
+  //   (2) the task was submitted by a call that began after the set had been cancelled.
   void cancel_oracle(int id) {
     const std::atomic<bool>* cf = cflag.get();
     if (id >= kPoolGateBase || !cf || !raw(*cf)) return; // pool gates are not tasks of the set
     canceled_seen.set(1);
     CallCtx* c = tl_call;
-    if (!c) {
-      // run from a queue/ring by a worker or by a waiter: the packaged task's own check and this line execute
-      // without a scheduling point in between, so the flag was set before the decision to run the body
-      mc::fail("body of task %d started although the set was already cancelled (run from the pool queue/ring)", id);
-    }
-    if (c->pre_canceled)
-      mc::fail("body of task %d was run inline by a schedule call that began after the set had been cancelled", id);
-    if (c->threw_in_call)
-      mc::fail("body of task %d was run inline after an earlier body of the same bulk call threw (set cancelled)", id);
-    // the set was cancelled by another thread while this schedule call was already in progress: check-then-run
-    // window of the inline path; not ordered after cancel() by anything the caller could observe
-    cov("inline_overlapping_cancel");
-    if (strict) mc::fail("strict reading: body of task %d ran inline after a cancel that overlapped the schedule call", id);
+    const char* how = c ? "run inline by its schedule call" : "run from the pool queue/ring";
+    if (tl_prev_flag)
+      mc::fail("body of task %d started (%s) although its thread had already observed the set cancelled before [thread T%d, in_wait=%d] events (thread:what id, * = flag set):%s",
+               id, how, mc_self_id(), tl_in_wait, dump().c_str());
+    if (c && c->threw_in_call)
+      mc::fail("body of task %d was run inline after an earlier body of the same bulk call threw (set cancelled) events:%s", id, dump().c_str());
+    if (submitted_canceled[id].get())
+      mc::fail("body of task %d started (%s) although it was submitted after the set had been cancelled [thread T%d] events:%s", id, how, mc_self_id(), dump().c_str());
+    cov(c ? "inline_overlapping_cancel" : "queued_overlapping_cancel");
+    if (strict) mc::fail("strict reading: body of task %d started (%s) after a cancel that overlapped the decision to run it; events:%s", id, how, dump().c_str());
+  }
+  // the running thread looks at the flag between two steps (a modelled load: part of the explored state)
+  void note_flag() {
+    const std::atomic<bool>* cf = cflag.get();
+    if (cf) tl_prev_flag = cf->load(std::memory_order_acquire) ? 1 : 0;
   }
 
   void body(int id) {
     int prev = started[id].add(1);
     MC_CHECK(prev == 0, "body of task %d started a second time", id);
+    ev('b', id);
     cancel_oracle(id);
     if (mc_self_id() == submitter.get()) {
       if (tl_call)
@@ -127,10 +162,14 @@ struct World {
     mc::point();
     if (id < kGateBase && ((mask >> id) & 1u)) {
       finished[id].set(2);
+      ev('x', id);
       if (tl_call) tl_call->threw_in_call = true;
+      if (cflag.get()) tl_prev_flag = 1; // cancel harness (one thrower): the handler that catches this cancels the set
       throw Tagged{id};
     }
     finished[id].set(1);
+    ev('e', id);
+    note_flag();
   }
   bool in_progress(int id) { return started[id].get() != 0 && finished[id].get() == 0; }
 };
@@ -261,6 +300,7 @@ template <class SetT>
 void submit_step(SetT& set, dispenso::ThreadPool& pool, World& w, const Step& st, std::vector<dispenso::Future<void>>& futs) {
   CallCtx ctx;
   ctx.pre_canceled = set.canceled(); // what a user could have observed before making the call
+  tl_prev_flag = ctx.pre_canceled ? 1 : 0;
   cover_expected_path(set, pool, st);
   int first = w.next.get();
   tl_call = &ctx;
@@ -282,7 +322,10 @@ void submit_step(SetT& set, dispenso::ThreadPool& pool, World& w, const Step& st
       case 'B': {
         int base = w.next.add(st.k);
         MC_CHECK(base + st.k <= kGateBase, "harness: too many tasks");
-        for (int i = 0; i < st.k; i++) w.barrier[base + i] = true;
+        for (int i = 0; i < st.k; i++) {
+          w.barrier[base + i] = true;
+          if (ctx.pre_canceled) w.submitted_canceled[base + i].set(1);
+        }
         auto gen = [&w, base](size_t i) {
           int id = base + (int)i;
           return [&w, id] { w.body(id); };
@@ -515,14 +558,20 @@ void cancel_runner(SetT& set, dispenso::ThreadPool& pool, World& w, const Cancel
   int len = (int)cfg.prog.size();
   for (int i = 0; i <= len; i++) {
     if (self_cancel && i == cfg.pos) {
+      w.ev('C', 0);
       self_cancel();
+      w.ev('D', 0);
+      w.note_flag();
       cov("cancel_by_runner");
     }
     if (i < len) submit_step(set, pool, w, cfg.prog[(size_t)i], none);
   }
   w.gate_open.set(1);
+  w.ev('o', 0);
   mc::join_all(); // a racing canceller is done before wait(): "wait() then reports cancellation"
-  bool pre = raw(set.canceled_);
+  w.ev('w', 0);
+  bool pre = set.canceled();
+  tl_prev_flag = pre ? 1 : 0;
   bool threw = false, r = false;
   tl_in_wait = 1;
   try {
@@ -594,7 +643,9 @@ MC_HARNESS(cancel) {
           MC_CHECK(is_cts(set), "harness: cancel() from a second thread needs a ConcurrentTaskSet");
           mc::spawn([&] {
             mc::block_until([&] { return w.settled.get() && w.progress.get() >= cfg.pos; });
+            w.ev('C', 0);
             set.cancel();
+            w.ev('D', 0);
             cov("cancel_by_second_thread");
           });
         }
